@@ -4,10 +4,12 @@ import common, fns, sweeps, crops
 from common import quiet
 
 PROP = 'C04'
-LEAN_MODULES = ['XyzProofs.Props.C04']
+LEAN_MODULES = ['XyzProofs.Props.C04', 'XyzProofs.Refine.Batch']
 THEOREMS = ['Crop.c04_batches_cover', 'Crop.opSow_fresh', 'Crop.c04_grow_correct', 'Crop.c04_stream_full', 'Crop.c04_reap_eq_direct', 'Crop.c04_grow_history',
-            'Crop.c04_history_reap_eq_direct', 'Crop.c04_reload_irrelevant']
-ANCHORS = ['nbFromBs', 'capNb', 'bsOfNb', 'remOfNb', 'sowerGetsExtra', 'sowerFlush', 'isReady', 'cleanUpDefault']
+            'Crop.c04_history_reap_eq_direct', 'Crop.c04_reload_irrelevant',
+            'Refine.chooseBatch_refines', 'Refine.sower_refines']
+ANCHORS = ['nbFromBs', 'capNb', 'bsOfNb', 'remOfNb', 'sowerGetsExtra', 'sowerFlush', 'isReady', 'cleanUpDefault',
+           'chooseBatchSettings', 'sowerInit', 'sowerCall', 'sowerExit']
 RULE = ("histories: construct (batchsize | num_batches | neither; shuffle False/True/int) -> sow_combos / sow_cases "
         "(shuffle also at sow time) -> a random partition+permutation of the batch ids over Crop.grow, grow(), "
         "grow(num_workers=2), grow_missing, with repeats -> reap; fresh Crop(name, parent_dir) objects inserted at random "
